@@ -595,9 +595,13 @@ func TestC35(t *testing.T) {
 						r2 := sb.Plz(bin, nil, 180*time.Second, "build", tg.label())
 						r.Obs("single_target_confirmations", 1)
 						if r2.Exit != 0 {
+							if r2.TimedOut || !strings.Contains(r2.Stderr+r2.Stdout, "Bad output hash for rule "+tg.label()) {
+								r.Inconclusive(fmt.Sprintf("history %d step %d (%s): building %s alone exits %d for a reason other than hash verification: %s", i, step, phase, tg.label(), r2.Exit, lib.Tail(r2.Stderr, 400)))
+								return false
+							}
 							failed[tg.label()] = true
 							r.Obs("failed_targets_missing_from_keep_going_report", 1)
-							note += " [" + tg.label() + " failed but was not named in the --keep_going report]"
+							note += " [" + tg.label() + " was not named in the --keep_going report; built alone it fails: " + lib.Tail(r2.Stderr, 700) + "]"
 						}
 					}
 				}
